@@ -284,6 +284,7 @@ func c11Run(ctx *core.Ctx) {
 			"MAIL FROM:<a@b.test> ENVID=a=b", "RCPT TO:<a@b.test> NOTIFY=", "RCPT TO:<a@b.test> NOTIFY=NEVER,SUCCESS", "RCPT TO:<a@b.test> NOTIFY=SUCCESS,SUCCESS",
 			"RCPT TO:<a@b.test> NOTIFY=SOMETIMES", "RCPT TO:<a@b.test> ORCPT=rfc822", "RCPT TO:<a@b.test> ORCPT=rfc822;", "RCPT TO:<a@b.test> ORCPT=;a@b", "RCPT TO:<a@b.test> ORCPT=rfc822;a+b",
 			"RCPT TO:<a@b.test> RRVS=yesterday", "RCPT TO:<a@b.test> RRVS=", "RCPT TO:<a@b.test> BAR=1", "RCPT TO:<a@b.test> SIZE=1", "MAIL FROM:<a@b.test> NOTIFY=NEVER",
+			"MAIL FROM:<a@b.test> AUTH=user@example.org+3Ejunk", "MAIL FROM:<a@b.test> AUTH=user@example.org+20junk", "MAIL FROM:<a@b.test> AUTH=u@e.org+09x", "MAIL FROM:<a@b.test> AUTH=<>x", "MAIL FROM:<a@b.test> AUTH=+3Cu@e.org+3E", "MAIL FROM:<a@b.test> AUTH=u@e.org+3E",
 			"MAIL FROM:<a@b.test> AUTH=x@y+4", "MAIL FROM:<a@b.test> AUTH=+", "MAIL FROM:<a@b.test> AUTH=a+", "MAIL FROM:<a@b.test> AUTH=+4", "MAIL FROM:<a@b.test> AUTH=+4G",
 			"MAIL FROM:<a@b.test> ENVID=+", "MAIL FROM:<a@b.test> ENVID=a+", "MAIL FROM:<a@b.test> ENVID=+4", "MAIL FROM:<a@b.test> ENVID=a+4", "MAIL FROM:<a@b.test> ENVID=+G0",
 			"RCPT TO:<a@b.test> ORCPT=rfc822;a+", "RCPT TO:<a@b.test> ORCPT=rfc822;a+4", "RCPT TO:<a@b.test> ORCPT=rfc822;+", "RCPT TO:<a@b.test> ORCPT=rfc822;+4", "RCPT TO:<a@b.test> ORCPT=rfc822;a@b+",
